@@ -60,6 +60,7 @@ pub struct Base {
     pub delegate: Pubkey,
     pub pos_full: usize,
     pub pos_empty: usize,
+    pub pos_msig: usize,   // funded plain position whose mint address starts with a valid Token multisig header (m=2, n=6, initialised)
     pub pos_same: usize,   // funded, both bounds in one tick array (lower and upper array slots name the same account)
     pub te_full: usize,
     pub te_empty: usize,
@@ -132,6 +133,9 @@ pub fn build_base(seed: u64) -> Base {
     let pos_full = open(&mut w, p_a, owner, -1280, 1280, false);
     fund(&mut w, pos_full, 5_000_000_000);
     let pos_empty = open(&mut w, p_a, owner, -640, 640, false);
+    w.key_prefix = Some(vec![2, 6, 1]);
+    let pos_msig = open(&mut w, p_a, owner, -1920, 1280, false);
+    fund(&mut w, pos_msig, 1_200_000_000);
     let pos_same = open(&mut w, p_a, owner, 640, 1920, false);
     fund(&mut w, pos_same, 2_500_000_000);
     let te_full = open(&mut w, p_a, owner, -2560, 2560, true);
@@ -308,7 +312,7 @@ pub fn build_base(seed: u64) -> Base {
         assert!(o.ok(), "catalogue set-up: update fees {i} {:?}", o.out.err);
     }
     Base {
-        w, cfg_a, cfg_b, p_a, p_a2, p_a3, p_t, p_ad, p_b, owner, other, delegate, pos_full, pos_empty, pos_same, te_full, te_empty, te_locked, te_lockable, other_pos, pos_a3, pos_a2, pos_t, pos_ad, pos_b,
+        w, cfg_a, cfg_b, p_a, p_a2, p_a3, p_t, p_ad, p_b, owner, other, delegate, pos_full, pos_empty, pos_msig, pos_same, te_full, te_empty, te_locked, te_lockable, other_pos, pos_a3, pos_a2, pos_t, pos_ad, pos_b,
         bundle_mint, bundle_token, bundled_open, empty_bundle_mint, empty_bundle_token, aft_a, aft_delegate, aft_perm, aft_perm_delegate, aft_b, badge_mint,
     }
 }
@@ -331,7 +335,7 @@ pub fn goldens(bs: &mut Base) -> Vec<Golden> {
         v.push(Golden { alts: vec![], name: name.to_string(), ix, auth, pool, position });
     };
     // ------------------------------------------------------------ position family (pool A)
-    for (label, i) in [("plain", bs.pos_full), ("same_array", bs.pos_same), ("token_ext", bs.te_full), ("bundled", bs.bundled_open), ("t22pool", bs.pos_t)] {
+    for (label, i) in [("plain", bs.pos_full), ("msig_mint", bs.pos_msig), ("same_array", bs.pos_same), ("token_ext", bs.te_full), ("bundled", bs.bundled_open), ("t22pool", bs.pos_t)] {
         let p = w.positions[i].pool;
         if w.pool_is_spl(p) {
             push(&format!("increase_liquidity[{label}]"), w.modify_v1(i).increase_liquidity(1_000_000, u64::MAX, u64::MAX), pos_auth("position_token_account", true), Some(p), Some(i));
